@@ -191,12 +191,12 @@ def harnesses(tier):
         hs += [S('c03.chain3.delays2', 'chain3', 4, {'d_AB': (1, 99), 'd_BC': (1, 99)}, budget=3000, twin=topo_scenario('chain3', 2, {'d': (1, 99)}, planted=True)),
                S('c03.chain3.start_A', 'chain3', 4, {'sA': (0, 2000)}, budget=3000),
                S('c03.chain3.start_BC', 'chain3', 3, {'sB': (0, 700), 'sC': (0, 700)}, budget=3000),
-               S('c03.chain3.speeds', 'chain3', 4, {'pA': (0, 1000), 'pB': (0, 1000)}, budget=3000),
+               S('c03.chain3.speeds', 'chain3', 4, {'pA': (0, 400), 'pB': (0, 400)}, budget=3000),
                S('c03.chain3.speed_C', 'chain3', 4, {'pC': (0, 3000)}, budget=3000),
                S('c03.chain3.behaviours', 'chain3', 4, {'pB': (0, 1000)}, behaviours={**BEH, 'none_ids': (0, 2)}, budget=3000),
-               S('c03.chain4.speeds', 'chain4', 3, {'pB': (0, 500), 'pC': (0, 500)}, budget=3000),
+               S('c03.chain4.speeds', 'chain4', 3, {'pB': (0, 250), 'pC': (0, 250)}, budget=3000),
                S('c03.tee.offsets', 'tee', 4, {'sB': (0, 700), 'sC': (0, 700)}, budget=3000),
-               S('c03.tee_rejoin.speeds', 'tee_rejoin', 4, {'pB': (0, 400), 'pC': (0, 400)}, budget=3000),
+               S('c03.tee_rejoin.speeds', 'tee_rejoin', 4, {'pB': (0, 250), 'pC': (0, 250)}, budget=3000),
                S('c03.tee_rejoin.offsets', 'tee_rejoin', 3, {'sB': (0, 700), 'sD': (0, 700)}, budget=3000),
                S('c03.join.offsets', 'join', 4, {'sA': (0, 700), 'sB': (0, 700)}, budget=3000)]
     return hs
